@@ -752,6 +752,8 @@ class Machine(object):
                 a, b, op, ta, tb = b, a, swap[op], tb, ta
             if ta == 'p' and tb == 'p':
                 return self.cmp_int(op, a[1], b[1])
+            if a == b and ta in ('s', 'a', 'm'):
+                return self.cmp_int(op, 0, 0)
             if ta == 'e' and tb == 'e':
                 return self.cmp_int(op, 0, 0)
             if ta == 'p' and tb == 'e':
